@@ -325,5 +325,9 @@ def gen_cases(tier, rng, info):
     return cases
 
 
+THEOREMS = {
+    'C12_substring_spec': 'substring is BibTeX\'s 1-based, end-relative-for-negative-start, clamped selection, for all integer arguments',
+}
+
 LEVEL_TEXT = 'see THEOREMS; filled when the proofs are registered'
 LEVEL_NOTE = ''
